@@ -26,7 +26,7 @@ theorem step_inv {p p' : Phase} {cur : List (List RowWrite)} {d : Db} {e : Ev}
   obtain ⟨s, ok⟩ := e
   obtain ⟨h1, h2⟩ := hI
   cases p <;> cases s <;> cases ok <;> simp [next] at hn <;> subst hn <;>
-    simp [exec, curAfter, Inv, applyTx_snoc, applyTx] at * <;> simp_all [applyTx]
+    simp [exec, curAfter, Inv] at * <;> simp_all [applyTx_snoc] <;> simp [applyTx]
 
 theorem head_mem_boundaries (pre : Store) (l : List (List (List RowWrite))) : pre ∈ boundaries pre l := by
   cases l <;> simp [boundaries]
@@ -141,11 +141,12 @@ theorem C17_pre_or_post (p : Phase) (hp : p ≠ .txn) (pre : Store) (t : List Ev
       subst this; right; simp
 
 /-- **Error at any statement, then Pony's error path.**  After any accepted prefix (a connection exists), a call that
-    raises (no `connect`), followed by `SessionCache.close(rollback=True)` — ROLLBACK, and `close` if the ROLLBACK
+    raises (not `connect`; not `close`, whose failure is not followed by a ROLLBACK), followed by `SessionCache.close(rollback=True)` — ROLLBACK, and `close` if the ROLLBACK
     raises too: the word is still in L, it is complete (no transaction left open), and the database is exactly what
     was committed before the failing call: the open transaction leaves nothing behind. -/
 theorem C17_error_path (p q : Phase) (pre : Store) (pfx : List Ev) (e : Ev) (rollbackOk : Bool)
-    (hq : runL p pfx = some q) (hconn : q ≠ .idle) (hfail : e.ok = false) (he : next q e ≠ none) :
+    (hq : runL p pfx = some q) (hconn : q ≠ .idle) (hfail : e.ok = false) (hclose : e.stmt ≠ .close)
+    (he : next q e ≠ none) :
     runL q (e :: errorPath rollbackOk) = some (if rollbackOk then .auto else .idle) ∧
     (run (run (Db.init pre) pfx) (e :: errorPath rollbackOk)).committed = crash (run (Db.init pre) pfx) ∧
     (run (run (Db.init pre) pfx) (e :: errorPath rollbackOk)).pending = none := by
